@@ -14,9 +14,11 @@ C01); each rule is per task execution, hence holds under every schedule:
  R6 source tasks: the batch size put in the task is the amount added to the launched counter;
  R7 external sources: the remaining-counter is decremented after the task's packets are stored, the flush is
     created once (remaining == 0 and an atomic once-flag), every flush / source task holds its block's lock;
+ R9 the per-source split of the request adds up to the request (X / n per copy, +1 for the first X % n, running sum
+    advanced by X, remainder handed out one by one);
  R8 DistributedPhotonSource::get_photon_batch updates its counter under the source's lock, bounded by the total.
-Not decided: schedule-dependent quiescence detection (the run flag is a plain bool) and the arithmetic of
-the per-source split.
+Not decided: schedule-dependent quiescence detection (the run flag is a plain bool); that the weights of the sources
+sum to at most one (data), without which the remainder of R9 would wrap.
 """
 import sympy as sp
 
@@ -595,6 +597,159 @@ def rule_R8(chk, lib):
     return n
 
 
+class _IntConv(object):
+    """Expression -> sympy with integer division / modulus as uninterpreted functions and const locals substituted."""
+
+    def __init__(self, fn):
+        from ..sym import Converter, Env
+        self.conv = Converter(integer=True)
+        base_binop = self.conv.binop
+        idiv, imod = sp.Function("idiv"), sp.Function("imod")
+
+        def binop(op, a, b, e=None):
+            if op == "/":
+                return idiv(a, b)
+            if op == "%":
+                return imod(a, b)
+            return base_binop(op, a, b, e)
+        self.conv.binop = binop
+        self.env = Env()
+        for s2 in C.walk_stmt(fn["body"]):
+            if s2.get("k") == "Decl":
+                for d in s2["d"]:
+                    if d.get("init") is not None and (d.get("t") or "").startswith("const ") and \
+                            not (d.get("t") or "").rstrip().endswith("&"):
+                        try:
+                            self.env.vals[("l", d["id"])] = self.conv.conv(d["init"], self.env)
+                        except Exception:
+                            pass
+
+    def __call__(self, e):
+        try:
+            return self.conv.conv(e, self.env)
+        except Exception:
+            return sp.Symbol("?" + C.pretty(e))
+
+
+def rule_R9(chk, lib):
+    """The per-source split of the requested packets adds up to the request (DistributedPhotonSource constructor):
+    per source, the copies receive X / n each plus one for the first X % n of them (n = number of copies = the bound of
+    the loop that pushes them), the running sum is advanced by the same X once per source, and the remainder request - sum
+    is handed out one packet per iteration of the overhead loop."""
+    ctors = [d for d in lib.decls if d["kind"] == "function" and d.get("clsq") == "DistributedPhotonSource"
+             and d.get("ctor") and d.get("body") and not d.get("dependent") and len(d["params"]) >= 3]
+    if not ctors:
+        raise AnalysisBroken("DistributedPhotonSource constructor not instantiated")
+    n = 0
+    for fn in ctors:
+        chk.analysed(function=fn["full"])
+        V = _IntConv(fn)
+        idiv, imod = sp.Function("idiv"), sp.Function("imod")
+        request = ("local", fn["params"][0]["id"], fn["params"][0]["n"])
+        decls = {}
+        for s2 in C.walk_stmt(fn["body"]):
+            if s2.get("k") == "Decl":
+                for d in s2["d"]:
+                    decls.setdefault(d["n"], d)
+        top = fn["body"]["s"]
+        src_loops = [s2 for s2 in top if s2.get("k") == "For"]
+        if len(src_loops) < 2:
+            raise AnalysisBroken("%s: source loop / overhead loop not found" % fn["full"])
+        src = src_loops[0]
+        body = src["body"]["s"] if src["body"].get("k") == "Block" else [src["body"]]
+        inner = [s2 for s2 in body if s2.get("k") == "For"]
+        push_loops = []
+        for lp in inner:
+            pushes = [x for y in C.walk_stmt(lp["body"]) for x in ([y] if C.is_call(C.strip_casts(y), name="push_back") else [])
+                      if C.member_name(C.strip_casts(x).get("obj")) == "_total_number_of_photons"]
+            if pushes:
+                push_loops.append((lp, pushes))
+        ok1 = len(push_loops) == 1
+        detail = "expected one loop pushing the per-copy totals"
+        X = S = None
+        if ok1:
+            lp, pushes = push_loops[0]
+            lb = lp["body"]["s"] if lp["body"].get("k") == "Block" else [lp["body"]]
+            # direct statements of the loop body: exactly one unconditional push of q, one guarded ++back()
+            direct_push = [y for y in lb if C.is_call(C.strip_casts(y), name="push_back") and
+                           C.member_name(C.strip_casts(y).get("obj")) == "_total_number_of_photons"]
+            ok1 = len(direct_push) == 1 and len(pushes) == 1
+            detail = "the per-copy total is not pushed exactly once per copy"
+            if ok1:
+                q = C.strip_casts(direct_push[0])["a"][0]
+                qv = V(q)
+                ok1 = getattr(qv, "func", None) == idiv
+                detail = "the pushed value `%s` is not X / n" % C.pretty(q)
+                if ok1:
+                    X, S = qv.args
+                    # loop bound = n
+                    cnd = C.strip_casts(lp.get("c"))
+                    i0 = lp["init"]["d"][0] if lp.get("init") and lp["init"].get("k") == "Decl" else None
+                    ok1 = cnd is not None and cnd.get("k") == "Bin" and cnd["op"] == "<" and V(cnd["b"]) == S and \
+                        i0 is not None and C.const_int(i0.get("init")) == 0
+                    detail = "the copy loop does not run over 0 <= i < %s" % S
+                if ok1:
+                    ifs = [y for y in lb if y.get("k") == "If"]
+                    incs = []
+                    for y in ifs:
+                        cc = C.strip_casts(y["c"])
+                        for z in C.walk_stmt(y["th"]):
+                            zz = C.strip_casts(z)
+                            if zz.get("k") == "Un" and zz["op"] in ("pre++", "post++") and \
+                                    "_total_number_of_photons" in C.pretty(zz["x"]):
+                                incs.append((cc, zz))
+                    ok1 = len(incs) == 1
+                    detail = "expected exactly one guarded increment of the last pushed total"
+                    if ok1:
+                        cc, _ = incs[0]
+                        ok1 = cc.get("k") == "Bin" and cc["op"] == "<" and V(cc["b"]) == imod(X, S) and \
+                            C.ref_key(cc["a"]) == ("local", i0["id"], i0["n"])
+                        detail = "the extra packet is not given to the copies i < X %% n (guard is `%s`)" % C.pretty(cc)
+        n += 1
+        chk.require(ok1, "R9", "%s: the copies of one source receive X / n each plus one for the first X %% n (sum = X)" %
+                    fn["full"].split("(")[0], where(src, fn), detail, function=fn["full"], construct="per-source split")
+        # running sum advanced by the same X once per source iteration (direct statement of the source loop body)
+        adds = [C.strip_casts(y) for y in body if C.strip_casts(y).get("k") == "Bin" and C.strip_casts(y)["op"] == "+="]
+        sumvar = None
+        ok2 = False
+        for a in adds:
+            if X is not None and V(a["b"]) == X:
+                ok2 = True
+                sumvar = C.ref_key(a["a"])
+        n += 1
+        chk.require(ok2 and len([a for a in adds if C.ref_key(a["a"]) == sumvar]) == 1, "R9",
+                    "the running sum is advanced by the same X exactly once per source", where(src, fn),
+                    "no unconditional `sum += %s` in the source loop" % X, function=fn["full"], construct="running sum")
+        # remainder and overhead loop
+        ov = src_loops[1]
+        cnd = C.strip_casts(ov.get("c"))
+        ok3 = False
+        detail = "overhead loop bound not understood"
+        if cnd is not None and cnd.get("k") == "Bin" and cnd["op"] == "<":
+            bv = V(cnd["b"])
+            rq = V({"k": "Ref", "id": fn["params"][0]["id"], "n": fn["params"][0]["n"]})
+            sv = None
+            for a in adds:
+                if C.ref_key(a["a"]) == sumvar and sumvar is not None:
+                    sv = V(a["a"])
+            ok3 = sv is not None and sp.expand(bv - (rq - sv)) == 0
+            detail = "the overhead is `%s`, expected request - running sum" % bv
+            ob = ov["body"]["s"] if ov["body"].get("k") == "Block" else [ov["body"]]
+            incs = [C.strip_casts(y) for y in ob if C.strip_casts(y).get("k") == "Un" and
+                    C.strip_casts(y)["op"] in ("pre++", "post++") and "_total_number_of_photons" in C.pretty(C.strip_casts(y)["x"])]
+            if ok3 and len(incs) != 1:
+                ok3 = False
+                detail = "the overhead loop does not hand out exactly one packet per iteration"
+            i0 = ov["init"]["d"][0] if ov.get("init") and ov["init"].get("k") == "Decl" else None
+            if ok3 and not (i0 is not None and C.const_int(i0.get("init")) == 0):
+                ok3 = False
+                detail = "the overhead loop does not start at 0"
+        n += 1
+        chk.require(ok3, "R9", "the remainder request - sum is handed out one packet per iteration (total = request)",
+                    where(ov, fn), detail, function=fn["full"], construct="overhead")
+    return n
+
+
 def run(chk, prog):
     chk.explanation = (
         "Typestate and accounting rules on the CFG of every task body and of both worker loops: task slots and photon "
@@ -645,6 +800,8 @@ def run(chk, prog):
         if short == "ionization":
             n["R7"] += rule_R7(chk, prog.library(), drv)
     n["R8"] += rule_R8(chk, prog.library())
+    n["R9"] = rule_R9(chk, prog.library())
+    chk.floor("R9", n["R9"], 3)
     chk.extra["obligations_per_rule"] = n
     chk.floor("R1", n["R1"], 12)
     chk.floor("R2", n["R2"], 8)
